@@ -31,6 +31,11 @@ type c03Cand struct {
 	Pt    int  // 0: every fact is a fact of c03Point; k>0: the other point is c03others[k-1]
 	From  uint // voters whose sign fact is the one they signed for the other point (same X/Y choice, same expel listing)
 	MajAt bool // the declared majority fact is the fact of the other point
+	// stuck voteproof (isaac.INITStuckVoteproof / ACCEPTStuckVoteproof: threshold 100 by type, expels mandatory, votes never tallied).
+	// VoteMaj still means "signs fact Maj" and VoteOther "signs the other fact"; Stuck says which majority fact the voteproof carries:
+	// "" not a stuck voteproof, "nil" none (the honest form, the type's own Finish()), "maj" fact Maj, "other" the other fact,
+	// "unvoted" a third fact Z of this stage point that nobody signed
+	Stuck string
 }
 
 func (c c03Cand) String() string {
@@ -44,8 +49,35 @@ func (c c03Cand) String() string {
 		replay = fmt.Sprintf(" replayed-from=%s voters=%0*b majority-of-other-point=%v", c03others[c.Pt-1].Name, c.N, c.From, c.MajAt)
 	}
 
-	return fmt.Sprintf("n=%d %s maj=%c votes=%0*b other=%0*b expelled=%0*b signers=[%s] listed=%v tweak=%q keyof=%d%s",
-		c.N, c.Stage, "XY"[c.Maj], c.N, c.VoteMaj, c.N, c.VoteOther, c.N, c.Expelled, strings.Join(ss, ","), c.ListFacts, c.Tweak, c.KeyOf, replay)
+	stuck := ""
+	if c.Stuck != "" {
+		stuck = " STUCK-voteproof carrying-majority=" + c.stuckMajorityName()
+	}
+
+	return fmt.Sprintf("n=%d %s maj=%c votes=%0*b other=%0*b expelled=%0*b signers=[%s] listed=%v tweak=%q keyof=%d%s%s",
+		c.N, c.Stage, "XY"[c.Maj], c.N, c.VoteMaj, c.N, c.VoteOther, c.N, c.Expelled, strings.Join(ss, ","), c.ListFacts, c.Tweak, c.KeyOf, replay, stuck)
+}
+
+// stuckMajority is the fact a stuck candidate carries as majority: -1 none, 0 X, 1 Y, 2 Z (signed by nobody).
+func (c c03Cand) stuckMajority() int {
+	switch c.Stuck {
+	case "maj":
+		return c.Maj
+	case "other":
+		return 1 - c.Maj
+	case "unvoted":
+		return 2
+	default:
+		return -1
+	}
+}
+
+func (c c03Cand) stuckMajorityName() string {
+	if k := c.stuckMajority(); k >= 0 {
+		return "XYZ"[k : k+1]
+	}
+
+	return "nil"
 }
 
 var c03Point = base.RawPoint(33, 1)
@@ -92,7 +124,7 @@ func c03factAt(stage base.Stage, pt, which int, efs []util.Hash) base.BallotFact
 		}
 	}
 
-	label := "XY"[which:which+1] + at
+	label := "XYZ"[which:which+1] + at
 
 	if stage == base.StageINIT {
 		return isaac.NewINITBallotFact(point, gen.H("prev"+at), gen.H("proposal-"+label), efs)
@@ -220,11 +252,56 @@ func c03build(c c03Cand, th base.Threshold) base.Voteproof {
 		return nil
 	}
 
+	if c.Stuck != "" {
+		// the carried fact is exactly the fact the voters of that side signed (same expel listing); Z lists nothing
+		var smaj base.BallotFact
+
+		switch k := c.stuckMajority(); {
+		case k == 2:
+			smaj = c03factAt(c.Stage, 0, 2, nil)
+		case k >= 0:
+			smaj = factOf(0, k)
+		}
+
+		return c03buildStuck(c, smaj, sfs, expels)
+	}
+
 	if c.Stage == base.StageINIT {
 		return gen.INITVoteproof(c03Point, maj, sfs, th, expels)
 	}
 
 	return gen.ACCEPTVoteproof(c03Point, maj, sfs, th, expels)
+}
+
+// c03buildStuck assembles a stuck voteproof for c03Point from the sign facts and expels of c. The honest form is what the type's own
+// Finish() gives (no majority, threshold 100); the other forms carry a majority fact and are finished the way every other voteproof
+// type is (SetMajority, SetThreshold, Finish of the embedded voteproof) - anybody who can encode a voteproof can send these.
+func c03buildStuck(c c03Cand, maj base.BallotFact, sfs []base.BallotSignFact, expels []base.SuffrageExpelOperation) base.Voteproof {
+	if maj == nil {
+		if c.Stage == base.StageINIT {
+			return gen.INITStuckVoteproof(c03Point, sfs, expels)
+		}
+
+		return gen.ACCEPTStuckVoteproof(c03Point, sfs, expels)
+	}
+
+	expels = append([]base.SuffrageExpelOperation(nil), expels...)
+
+	if c.Stage == base.StageINIT {
+		vp := isaac.NewINITStuckVoteproof(c03Point)
+		_ = vp.SetSignFacts(sfs)
+		_ = vp.SetExpels(expels)
+		_ = vp.SetMajority(maj).SetThreshold(base.MaxThreshold).Finish()
+
+		return vp
+	}
+
+	vp := isaac.NewACCEPTStuckVoteproof(c03Point)
+	_ = vp.SetSignFacts(sfs)
+	_ = vp.SetExpels(expels)
+	_ = vp.SetMajority(maj).SetThreshold(base.MaxThreshold).Finish()
+
+	return vp
 }
 
 // c03accepted is exactly what ballotbox and syncer apply to a voteproof received from others.
@@ -305,13 +382,17 @@ func TestC03(t *testing.T) {
 		"x {majority fact lists the expel facts or not}, every plain assignment to {absent, votes majority, votes the other fact}, x tweaks {duplicate voter, foreign voter, foreign expel signer, one member signing the other voters' sign facts with its own key}; real signed voteproofs, accepted = vp.IsValid && isaac.IsValidVoteproofWithSuffrage; " +
 		"plus the family 'replayed from another point': the votes the nodes cast for a neighbouring stage point (round-1, round+1, height-1, height+1, other stage) packaged as a voteproof for this point " +
 		"(every assignment node -> {absent, vote for this point, vote for the other point} x majority fact of this or of the other point; with expels signed by all others: whole vote set replayed / one replayed vote); " +
-		"plus rapid-drawn voteproofs with minority votes, arbitrary signer sets and arbitrary replayed voter subsets. Every pair of accepted voteproofs for the point with different majority facts is judged: equivocators = nodes signing two different facts for one and the same stage point in the two. " +
+		"plus the family 'stuck': stuck voteproofs (INITStuckVoteproof / ACCEPTStuckVoteproof) for this point, every assignment node -> {absent, signs X, signs Y, expelled} with k>=1 expelled and every expel signed by all other nodes, " +
+		"x {the sign facts of X list the expel facts or not} x carried majority {none = the type's own Finish(), X, Y, a third fact Z nobody signed}; they join the same pool, so each is paired with every accepted plain, expel, tweaked, replayed and stuck voteproof; a voteproof without majority is never one side of a conflict; " +
+		"plus rapid-drawn voteproofs with minority votes, arbitrary signer sets, arbitrary replayed voter subsets and stuck voteproofs with arbitrary vote splits and signer sets. Every pair of accepted voteproofs for the point with different majority facts is judged: equivocators = nodes signing two different facts for one and the same stage point in the two. " +
 		"non-trivial = distinct pair of accepted voteproofs with different majorities (the pair reached the predicate)")
 	r.Floor(20)
 	r.Assume("both voteproofs carry the network threshold t (a voteproof's own threshold field is not varied)",
 		"expel operations may carry the signature of any suffrage node (statement)",
 		"f = n - ceil(n*t/100) computed with exact integer arithmetic",
-		"a node that signs one fact per stage point is honest: its vote for another round/height/stage is not a second vote for this stage point")
+		"a node that signs one fact per stage point is honest: its vote for another round/height/stage is not a second vote for this stage point",
+		"a stuck voteproof carries threshold 100 (fixed by its type), so its bytes do not depend on the network threshold t: its validation verdict is computed once per (n, stage) and reused for every t; t enters the judgement of its pairs through f only",
+		"a majority-carrying stuck voteproof is finished like every other voteproof type (SetMajority, SetThreshold(100), Finish of the embedded voteproof): any peer can encode and send one")
 
 	type cfg struct {
 		n   int
@@ -335,6 +416,10 @@ func TestC03(t *testing.T) {
 
 	// larger (n,t) first so shards are balanced
 	sort.SliceStable(cfgs, func(i, j int) bool { return cfgs[i].n > cfgs[j].n })
+
+	// A stuck candidate does not depend on the network threshold (its type fixes its threshold field to 100), so the very same
+	// voteproof and suffrage would be validated again for every t: the verdict of the validator is remembered per candidate.
+	stuckVerdict := map[string]bool{}
 
 	for ci, cf := range cfgs {
 		if !r.Mine(ci) {
@@ -565,8 +650,67 @@ func TestC03(t *testing.T) {
 				}
 			}
 
+			// stuck voteproofs: node -> {absent, signs X, signs Y, expelled} with k>=1 expelled, every expel signed by all other
+			// nodes, the sign facts of X list the expel facts or not, carrying no majority / X / Y / a fact Z nobody signed.
+			// X<->Y symmetry: only X may list the expels; the families above supply both majorities as partners.
+			var nstuck int64
+
+			total4 := 1 << uint(2*n)
+
+			for a := 0; a < total4; a++ {
+				var vx, vy, expelled uint
+
+				for i := 0; i < n; i++ {
+					switch (a >> uint(2*i)) & 3 {
+					case 1:
+						vx |= 1 << uint(i)
+					case 2:
+						vy |= 1 << uint(i)
+					case 3:
+						expelled |= 1 << uint(i)
+					}
+				}
+
+				if expelled == 0 || vx|vy == 0 {
+					continue
+				}
+
+				c := c03Cand{N: n, Stage: stage, VoteMaj: vx, VoteOther: vy, Expelled: expelled}
+
+				for e := 0; e < n; e++ {
+					if expelled&(1<<uint(e)) != 0 {
+						c.Signers = append(c.Signers, (uint(1)<<uint(n)-1)&^(1<<uint(e)))
+					}
+				}
+
+				for _, listed := range []bool{false, true} {
+					if listed && vx == 0 {
+						continue // no sign fact of X: nothing signed lists anything; X is then one more fact nobody signed
+					}
+
+					for _, stuck := range []string{"nil", "maj", "other", "unvoted"} {
+						c.ListFacts, c.Stuck = listed, stuck
+						evaluated++
+
+						key := c.String()
+
+						ok, found := stuckVerdict[key]
+						if !found {
+							ok = c03accepted(c03build(c, th), suf)
+							stuckVerdict[key] = ok
+						}
+
+						if ok {
+							acc = append(acc, c)
+							nstuck++
+						}
+					}
+				}
+			}
+
 			c03pairs(t, r, n, t10, f, req, acc)
 			r.CaseN(evaluated, 0, fmt.Sprintf("cands:n=%d", n))
+			r.Class(fmt.Sprintf("accepted-stuck:n=%d,t=%d,%s", n, t10, stage), nstuck)
 			r.Class(fmt.Sprintf("accepted:n=%d,t=%d,%s", n, t10, stage), int64(len(acc)))
 		}
 	}
@@ -590,9 +734,16 @@ func TestC03(t *testing.T) {
 			k := rapid.IntRange(1, 4).Draw(rt, "cands")
 			for ; k > 0; k-- {
 				c := c03Cand{N: n, Stage: stage, Maj: maj, ListFacts: rapid.Bool().Draw(rt, "listed")}
-				// biased towards acceptance: most nodes vote the majority
+				c.Stuck = rapid.SampledFrom([]string{"", "", "", "", "nil", "maj", "other", "unvoted"}).Draw(rt, "stuck")
+
+				// biased towards acceptance: most nodes vote the majority (a stuck voteproof: votes split, somebody expelled)
+				roles := []int{1, 1, 1, 1, 0, 2, 3}
+				if c.Stuck != "" {
+					roles = []int{1, 1, 2, 2, 0, 3, 3}
+				}
+
 				for i := 0; i < n; i++ {
-					switch rapid.SampledFrom([]int{1, 1, 1, 1, 0, 2, 3}).Draw(rt, "role") {
+					switch rapid.SampledFrom(roles).Draw(rt, "role") {
 					case 1:
 						c.VoteMaj |= 1 << uint(i)
 					case 2:
@@ -609,8 +760,11 @@ func TestC03(t *testing.T) {
 					}
 				}
 
-				// some or all votes (and possibly the majority) replayed from a neighbouring stage point
-				if c.Pt = rapid.SampledFrom([]int{0, 0, 0, 1, 2, 3, 4, 5}).Draw(rt, "replayed-from"); c.Pt != 0 {
+				// some or all votes (and possibly the majority) replayed from a neighbouring stage point (stuck candidates are not
+				// combined with the replayed family)
+				if c.Stuck != "" {
+					c.Pt = 0
+				} else if c.Pt = rapid.SampledFrom([]int{0, 0, 0, 1, 2, 3, 4, 5}).Draw(rt, "replayed-from"); c.Pt != 0 {
 					c.From = c.VoteMaj | c.VoteOther
 					if !rapid.Bool().Draw(rt, "replay-all") {
 						c.From &= uint(rapid.IntRange(1, 1<<uint(n)-1).Draw(rt, "replayed-voters"))
@@ -623,7 +777,7 @@ func TestC03(t *testing.T) {
 					}
 				}
 
-				if c.VoteMaj == 0 {
+				if c.VoteMaj == 0 && (c.Stuck == "" || c.VoteOther == 0) {
 					continue
 				}
 
@@ -670,8 +824,19 @@ func c03signedFact(c c03Cand, i int) (pt, which int, listed uint, ok bool) {
 	return pt, which, listed, true
 }
 
-// c03majority identifies the declared majority fact by (point it belongs to, X/Y).
+// c03majority identifies the declared majority fact by (point it belongs to, X/Y[/Z]); -1: the voteproof carries no majority.
 func c03majority(c c03Cand) int {
+	if c.Stuck != "" {
+		switch k := c.stuckMajority(); {
+		case k < 0:
+			return -1 // carries no majority: cannot conflict with anything
+		case k == 2:
+			return 2 * (len(c03others) + 1) // fact Z of this stage point
+		default:
+			return k
+		}
+	}
+
 	if c.MajAt {
 		return c.Pt*2 + c.Maj
 	}
@@ -681,10 +846,11 @@ func c03majority(c c03Cand) int {
 
 // c03pairs judges every pair of accepted voteproofs (all are voteproofs for c03Point) with different majorities.
 func c03pairs(t ev.TB, r *ev.Rec, n, t10, f, req int, acc []c03Cand) {
-	groups := make([][]c03Cand, 2*(len(c03others)+1))
+	groups := make([][]c03Cand, 2*(len(c03others)+1)+1)
 	for _, c := range acc {
-		k := c03majority(c)
-		groups[k] = append(groups[k], c)
+		if k := c03majority(c); k >= 0 {
+			groups[k] = append(groups[k], c)
+		}
 	}
 
 	for ka := range groups {
@@ -727,6 +893,8 @@ func c03pair(t ev.TB, r *ev.Rec, n, t10, f, req int, a, b c03Cand) {
 	ka, kb := bits.OnesCount(a.Expelled), bits.OnesCount(b.Expelled)
 
 	switch {
+	case a.Stuck != "" || b.Stuck != "":
+		sig = "conflict-stuck-with-majority"
 	case a.Pt != 0:
 		sig = "conflict-replayed-" + c03others[a.Pt-1].Kind
 	case b.Pt != 0:
